@@ -9,8 +9,10 @@ package main
 // build (and with it every theorem that depends on the function) fails visibly.
 
 import (
+	"bytes"
 	"fmt"
 	"go/ast"
+	"go/printer"
 	"go/token"
 	"sort"
 	"strconv"
@@ -23,6 +25,7 @@ const (
 	RetErr    RetKind = iota // func(...) error                -> Go.R Unit
 	RetValErr                // func(...) (T, error)            -> Go.R T
 	RetVal                   // func(...) T                     -> T
+	RetHandled               // func(w, r, ...) (HTTP handler)  -> List Go.HCall (the response-writing / delegating calls on the path taken)
 )
 
 // OutParam: the Go callee writes through a pointer argument; its Lean twin returns the new value.
@@ -37,6 +40,7 @@ var outParams = map[string]OutParam{
 	"oidc.CheckSignature":        {3, true},
 	"CheckSignature":             {3, true},
 	"ValidateRefreshTokenScopes": {1, true},
+	"httphelper.HttpRequest":     {2, false},
 }
 
 type FuncSpec struct {
@@ -51,6 +55,36 @@ type FuncSpec struct {
 	WrapOk   string            // RetValErr: constructor applied to the value of `return v, nil`
 	WrapBoth string            // RetValErr: constructor applied to (v, err) of `return v, err` with non-zero v
 	RetParam string            // RetErr function that mutates this pointer parameter: `return nil` yields its final value
+	TailCalls  []string             // RetErr: `return f(..)` with f in this list is a tail call (not an error constructor)
+	StructLits map[string]StructLit // Go composite literal type ("pkg.T{}") -> Lean structure instance with the kept fields
+}
+
+// StructLit: `&pkg.T{K: V, ...}` becomes `({ K := V, ... } : Lean)`, restricted to the fields in Keep.
+type StructLit struct {
+	Lean string
+	Keep []string
+}
+
+// methods implemented by translated functions: recv.M(args) -> (F now recv args)
+var genMethodMap = map[string]string{"Relative": "Endpoint_Relative", "Absolute": "Endpoint_Absolute"}
+
+func goSrc(fset *token.FileSet, n ast.Node) string {
+	var b bytes.Buffer
+	printer.Fprint(&b, fset, n)
+	return strings.Join(strings.Fields(b.String()), " ")
+}
+
+// hcall renders a statement-level call of an HTTP handler body (RetHandled)
+func (t *tr) hcall(c *ast.CallExpr) string {
+	var errs []string
+	for _, a := range c.Args {
+		src := goSrc(t.fset, a)
+		_, renamed := t.spec.Rename[strings.SplitN(src, "(", 2)[0]+"()"]
+		if _, isCall := a.(*ast.CallExpr); isCall && (strings.Contains(src, "Err") || renamed) {
+			errs = append(errs, t.errValue(a))
+		}
+	}
+	return "(Go.hcall " + leanStr(goSrc(t.fset, c.Fun)) + " [" + strings.Join(errs, ", ") + "])"
 }
 
 type tr struct {
@@ -82,7 +116,7 @@ func ignorableCall(c *ast.CallExpr) bool {
 	switch {
 	case strings.HasSuffix(s, "Tracer.Start"), strings.HasSuffix(s, "tracer.Start"), s == "span.End", strings.HasPrefix(s, "logger."),
 		strings.HasSuffix(s, ".Debug"), strings.HasSuffix(s, ".Info"), strings.HasSuffix(s, ".Error") && strings.Contains(s, "ogger"),
-		s == "span.RecordError", s == "span.SetStatus":
+		s == "span.RecordError", s == "span.SetStatus", s == "logging.FromContext":
 		return true
 	}
 	return false
@@ -147,6 +181,7 @@ var pkgMap = map[string]string{
 	"time.Second": "Go.second", "time.Minute": "(60 * Go.second)", "time.Hour": "(3600 * Go.second)",
 	"slices.Contains": "Go.contains", "strings.HasPrefix": "Go.hasPrefix", "strings.HasSuffix": "Go.hasSuffix",
 	"strings.Contains": "Go.strContains", "strings.TrimSpace": "Go.trimSpace",
+	"strings.TrimSuffix": "Go.trimSuffix", "strings.TrimPrefix": "Go.trimPrefix",
 	"str.Contains": "Go.contains", "bytes.Equal": "Go.bytesEqual",
 	"oidc.FromTime": "Go.fromTime", "FromTime": "Go.fromTime",
 	"time.Time{}": "Go.zeroTime",
@@ -253,7 +288,30 @@ func (t *tr) expr(e ast.Expr) string {
 		}
 		return t.bad("binary "+x.Op.String(), x)
 	case *ast.CompositeLit:
+		if at, ok := x.Type.(*ast.ArrayType); ok && at.Len == nil { // slice literal
+			var vals []string
+			for _, e := range x.Elts {
+				vals = append(vals, t.expr(e))
+			}
+			return "[" + strings.Join(vals, ", ") + "]"
+		}
 		tn := exprString(x.Type) + "{}"
+		if sl, ok := t.spec.StructLits[tn]; ok {
+			var fs []string
+			for _, e := range x.Elts {
+				kv, ok := e.(*ast.KeyValueExpr)
+				if !ok {
+					return t.bad("positional struct literal "+tn, x)
+				}
+				k := exprString(kv.Key)
+				for _, keep := range sl.Keep {
+					if keep == k {
+						fs = append(fs, k+" := "+t.expr(kv.Value))
+					}
+				}
+			}
+			return "({ " + strings.Join(fs, ", ") + " } : " + sl.Lean + ")"
+		}
 		if len(x.Elts) == 0 {
 			if r, ok := pkgMap[tn]; ok {
 				return r
@@ -340,6 +398,10 @@ func (t *tr) call(c *ast.CallExpr) string {
 	switch full {
 	case "time.Now":
 		return "now"
+	case "append":
+		if len(c.Args) == 2 {
+			return "(Go.append " + t.expr(c.Args[0]) + " " + t.expr(c.Args[1]) + ")"
+		}
 	case "len":
 		return "(Go.len " + t.expr(c.Args[0]) + ")"
 	case "string", "jose.SignatureAlgorithm", "[]byte", "oidc.GrantType", "oidc.ResponseType", "int", "int64", "time.Duration", "oidc.Time", "Time":
@@ -348,6 +410,12 @@ func (t *tr) call(c *ast.CallExpr) string {
 		}
 	case "fmt.Errorf", "errors.New", "errors.Join":
 		return t.errValue(c)
+	case "make":
+		if len(c.Args) >= 2 {
+			if _, ok := c.Args[0].(*ast.ArrayType); ok && exprString(c.Args[1]) == "<*ast.BasicLit>" && c.Args[1].(*ast.BasicLit).Value == "0" {
+				return "([] : List _)"
+			}
+		}
 	}
 	if r, ok := t.spec.Rename[full+"()"]; ok {
 		if a := t.args(c.Args); a != "" {
@@ -377,6 +445,12 @@ func (t *tr) call(c *ast.CallExpr) string {
 				return "(" + lf + " " + recv + ")"
 			}
 			return "(" + lf + " " + recv + " " + t.args(c.Args) + ")"
+		}
+		if gf, ok := genMethodMap[m]; ok {
+			if a := t.args(c.Args); a != "" {
+				return "(" + gf + " now " + recv + " " + a + ")"
+			}
+			return "(" + gf + " now " + recv + ")"
 		}
 		// getter or method of a model structure:  recv.M args
 		if len(c.Args) == 0 {
@@ -435,6 +509,10 @@ func (t *tr) errValue(e ast.Expr) string {
 			if lit, ok := x.Args[0].(*ast.BasicLit); ok {
 				s, _ := strconv.Unquote(lit.Value)
 				return leanStr("error:" + s)
+			}
+		case "errors.Join":
+			if len(x.Args) >= 1 {
+				return t.errValue(x.Args[0]) // the first joined error is the sentinel
 			}
 		}
 		// oidc.ErrInvalidRequest().WithDescription(...)  ->  "ErrInvalidRequest"
@@ -500,6 +578,13 @@ func (t *tr) ret(r *ast.ReturnStmt) string {
 			}
 			return "Go.ok"
 		}
+		if c, ok := r.Results[0].(*ast.CallExpr); ok {
+			for _, tc := range t.spec.TailCalls {
+				if exprString(c.Fun) == tc {
+					return t.expr(c)
+				}
+			}
+		}
 		return "(.error " + t.errValue(r.Results[0]) + ")"
 	case RetValErr:
 		if len(r.Results) == 1 {
@@ -551,6 +636,10 @@ func (t *tr) ret(r *ast.ReturnStmt) string {
 			return t.bad("return arity", r)
 		}
 		return t.expr(r.Results[0])
+	case RetHandled:
+		if len(r.Results) == 0 {
+			return "[]"
+		}
 	}
 	return t.bad("return", r)
 }
@@ -583,6 +672,9 @@ func memo(f func() string) cont {
 
 func (t *tr) block(stmts []ast.Stmt, k cont) string {
 	if len(stmts) == 0 {
+		if k == nil && t.spec.Ret == RetHandled {
+			return "[]" // end of a handler body
+		}
 		if k == nil {
 			return t.bad("fallthrough without return", nil)
 		}
@@ -611,6 +703,9 @@ func (t *tr) block(stmts []ast.Stmt, k cont) string {
 					v := t.ident(id.Name)
 					return "let " + v + " := (" + v + ")." + sel.Sel.Name + " " + t.args(c.Args) + ";\n" + t.pad() + rest()
 				}
+			}
+			if t.spec.Ret == RetHandled {
+				return "(" + t.hcall(c) + " :: " + rest() + ")"
 			}
 		}
 		return t.bad("expression statement", x)
@@ -727,6 +822,31 @@ func (t *tr) block(stmts []ast.Stmt, k cont) string {
 				t.indent--
 				return "(match " + t.expr(as.Rhs[0]) + " with\n" + t.pad() + "| .error err => " + errBranch + "\n" + t.pad() + "| .ok " + t.okPattern(as.Rhs[0], "_") + " =>\n" + t.pad() + okBranch + ")"
 			}
+			if ok && len(as.Lhs) == 2 && len(as.Rhs) == 1 {
+				// if v, ok := e.(T); cond {..}   ->   the assertion as a statement, then the plain if
+				if ta, isTA := as.Rhs[0].(*ast.TypeAssertExpr); isTA && ta.Type != nil {
+					y := *x
+					y.Init = nil
+					return t.block(append([]ast.Stmt{as, &y}, stmts[1:]...), k)
+				}
+				// if logger, ok := logging.FromContext(ctx); ok { logger.Debug(..) }   ->   nothing
+				if c, isCall := as.Rhs[0].(*ast.CallExpr); isCall && ignorableCall(c) && x.Else == nil {
+					onlyLogging := true
+					for _, st := range x.Body.List {
+						es, isES := st.(*ast.ExprStmt)
+						if !isES {
+							onlyLogging = false
+							break
+						}
+						if bc, isC := es.X.(*ast.CallExpr); !isC || !ignorableCall(bc) {
+							onlyLogging = false
+						}
+					}
+					if onlyLogging {
+						return rest()
+					}
+				}
+			}
 			return t.bad("if with init", x)
 		}
 		t.indent++
@@ -740,6 +860,12 @@ func (t *tr) block(stmts []ast.Stmt, k cont) string {
 		t.indent--
 		return "(if " + t.expr(x.Cond) + " then\n" + t.pad() + "  " + thenB + "\n" + t.pad() + "else\n" + t.pad() + elseB + ")"
 	case *ast.SwitchStmt:
+		if as, ok := x.Init.(*ast.AssignStmt); ok && len(as.Lhs) == 1 && len(as.Rhs) == 1 {
+			// switch v := e; v {..}   ->   the assignment as a statement, then the plain switch
+			y := *x
+			y.Init = nil
+			return t.block(append([]ast.Stmt{as, &y}, stmts[1:]...), k)
+		}
 		return t.switchStmt(x, rest)
 	case *ast.RangeStmt:
 		// for _, v := range L { if COND(v) { return V } }   ->   if L.any (fun v => COND) then V else rest
@@ -821,6 +947,8 @@ func translateFunc(fset *token.FileSet, fd *ast.FuncDecl, spec *FuncSpec) (strin
 		}
 	case RetValErr:
 		rt = "Go.R " + spec.RetType
+	case RetHandled:
+		rt = "List Go.HCall"
 	default:
 		rt = spec.RetType
 	}
